@@ -170,6 +170,9 @@ func ruleVD1(c *Ctx) {
 					if replyIOSource(src) {
 						continue
 					}
+					if sc, ok := sv.(*ssa.Call); ok && c.replyOnlyHelper(sc.Call.StaticCallee(), 0) {
+						continue // a helper that only prints the reply: its error is the reply write's
+					}
 					if c.defensiveOnCallbackStore(f, r) {
 						continue
 					}
@@ -213,6 +216,52 @@ func isCommandLevel(c *Ctx, f *ssa.Function) bool {
 		}
 	}
 	return false
+}
+
+// replyOnlyHelper: a module function every error of which comes from writing the reply (writeJSON / fmt.Fprint*),
+// and which cannot reach a storage effect.
+func (c *Ctx) replyOnlyHelper(h *ssa.Function, d int) bool {
+	if h == nil || h.Blocks == nil || !c.InModule(h) || d > 2 {
+		return false
+	}
+	for g := range c.F.TransitiveCallees(h) {
+		for _, e := range c.F.Effects {
+			if e.Fn == g && storageEffectClass(e.Class) {
+				return false
+			}
+		}
+	}
+	n := 0
+	for _, r := range returnsOf(h) {
+		if len(r.Results) == 0 {
+			return false
+		}
+		last := r.Results[len(r.Results)-1]
+		if !isErrorType(last) || isNilConst(returnedValue(r, len(r.Results)-1)) {
+			continue
+		}
+		srcs := errorSourceValues(r)
+		if len(srcs) == 0 {
+			return false
+		}
+		for _, sv := range srcs {
+			sc, ok := sv.(*ssa.Call)
+			if !ok {
+				return false
+			}
+			name := calleeFullName(&sc.Call)
+			if cal := sc.Call.StaticCallee(); cal != nil && c.InModule(cal) {
+				name = c.Name(cal)
+				if !replyIOSource(name) && !c.replyOnlyHelper(cal, d+1) {
+					return false
+				}
+			} else if !replyIOSource(name) {
+				return false
+			}
+			n++
+		}
+	}
+	return n > 0
 }
 
 func replyIOSource(s string) bool {
